@@ -1562,3 +1562,35 @@ mut("batch_decoder_loops_until_empty", ["C01", "C15"], "GRD-34|<batch::Batch as 
     note="the batch decoder ignores the stored count and decodes until the payload is used up")
 mut("revert_D29", ["C09"], "ORD-10b|compaction::worker::CompactionWorker::new::{closure#0}|thread-ends-only-on-terminate", patch="revert_D29_worker_leaves_on_the_shutdown_flag.diff",
     note="the compaction thread exits on is_shutting_down with a scheduled task still queued: closing the database hangs (defect D29)")
+
+# ---- round 12: benign set D (12 refactorings of wave 3-5 anchors) and the wrong twins of two of them
+benign_patch("refactor_s12_D_01", "benign/set12_D_01_read_record_eof_kind_if.diff", note='LogReader::read_record (src/logs.rs) (round-12 anchors, set D)')
+benign_patch("refactor_s12_D_02", "benign/set12_D_02_read_physical_record_trailer_length_temp.diff", note='LogReader::read_physical_record (src/logs.rs) (round-12 anchors, set D)')
+benign_patch("refactor_s12_D_03", "benign/set12_D_03_is_fully_consumed_explicit_match_len.diff", note='LogReader::is_fully_consumed (src/logs.rs) (round-12 anchors, set D)')
+benign_patch("refactor_s12_D_04", "benign/set12_D_04_filter_block_name_push_str.diff", note='get_filter_block_name (src/filter_policy.rs) (round-12 anchors, set D)')
+benign_patch("refactor_s12_D_05", "benign/set12_D_05_key_may_match_while_countdown.diff", note='BloomFilterPolicy::key_may_match (src/filter_policy.rs) (round-12 anchors, set D)')
+benign_patch("refactor_s12_D_06", "benign/set12_D_06_separator_user_key_temp_swapped_cmp.diff", note='<&InternalKey as BinarySeparable>::find_shortest_separator (src/key.rs) (round-12 anchors, set D)')
+benign_patch("refactor_s12_D_07", "benign/set12_D_07_db_iter_next_flipped_branches.diff", note='DatabaseIterator::next (src/iterator.rs) (round-12 anchors, set D)')
+benign_patch("refactor_s12_D_08", "benign/set12_D_08_db_iter_prev_match_on_inner_prev.diff", note='DatabaseIterator::prev (src/iterator.rs) (round-12 anchors, set D)')
+benign_patch("refactor_s12_D_09", "benign/set12_D_09_db_get_snapshot_match_and_ok_or.diff", note='DB::get (src/db.rs) (round-12 anchors, set D)')
+benign_patch("refactor_s12_D_10", "benign/set12_D_10_new_iterator_if_let_immutable_memtable.diff", note='DB::new_iterator (src/db.rs) (round-12 anchors, set D)')
+benign_patch("refactor_s12_D_11", "benign/set12_D_11_remove_obsolete_files_map_or_de_morgan.diff", note='DB::remove_obsolete_files (src/db.rs) (round-12 anchors, set D)')
+benign_patch("refactor_s12_D_12", "benign/set12_D_12_batch_try_from_while_countdown.diff", note='<Batch as TryFrom<&[u8]>>::try_from (src/batch.rs) (round-12 anchors, set D)')
+mut("batch_decoder_leaves_loop_on_empty_payload", ["C01", "C15"], "GRD-34|<batch::Batch as std::convert::TryFrom<&[u8]>>::try_from|loop-left-only-at-the-stored-count", patch="batch_decoder_leaves_loop_on_empty_payload.diff",
+    note="the element loop of the batch decoder has a second way out (payload used up): a truncated batch decodes to a shorter one")
+mut("wal_guard_map_or_wrong_relation", ["C11", "C03"], "GRD-5|db::DB::remove_obsolete_files", patch="wal_guard_map_or_wrong_relation.diff",
+    note="the previous-WAL guard written as map_or(false, |prev| prev > n): the WAL being flushed is deleted (wrong twin of benign set D #11)")
+
+# ---- round 12: benign set C (12 refactorings of wave 3-5 anchors; all silent on arrival)
+benign_patch("refactor_s12_C_01", "benign/set12_C_01_task_loop_while_let_pop_front.diff", note='CompactionWorker::new (thread body) (round-12 anchors, set C)')
+benign_patch("refactor_s12_C_02", "benign/set12_C_02_thread_loop_while_not_terminated.diff", note='CompactionWorker::new (thread body) (round-12 anchors, set C)')
+benign_patch("refactor_s12_C_03", "benign/set12_C_03_compact_memtable_match_apply_result.diff", note='CompactionWorker::compact_memtable (round-12 anchors, set C)')
+benign_patch("refactor_s12_C_04", "benign/set12_C_04_compact_tables_extract_flush_helper.diff", note='CompactionWorker::compact_tables (round-12 anchors, set C)')
+benign_patch("refactor_s12_C_05", "benign/set12_C_05_compact_tables_match_background_error_before_install.diff", note='CompactionWorker::compact_tables (round-12 anchors, set C)')
+benign_patch("refactor_s12_C_06", "benign/set12_C_06_is_base_level_for_key_early_continue.diff", note='CompactionManifest::is_base_level_for_key (round-12 anchors, set C)')
+benign_patch("refactor_s12_C_07", "benign/set12_C_07_add_boundary_inputs_match_and_while_let.diff", note='CompactionManifest::add_boundary_inputs (round-12 anchors, set C)')
+benign_patch("refactor_s12_C_08", "benign/set12_C_08_find_smallest_boundary_file_map_or.diff", note='CompactionManifest::find_smallest_boundary_file (round-12 anchors, set C)')
+benign_patch("refactor_s12_C_09", "benign/set12_C_09_apply_changes_sequence_number_temporaries.diff", note='DB::apply_changes (round-12 anchors, set C)')
+benign_patch("refactor_s12_C_10", "benign/set12_C_10_apply_changes_explicit_wal_append_error.diff", note='DB::apply_changes (round-12 anchors, set C)')
+benign_patch("refactor_s12_C_11", "benign/set12_C_11_build_group_commit_batch_skip_and_match.diff", note='DB::build_group_commit_batch (round-12 anchors, set C)')
+benign_patch("refactor_s12_C_12", "benign/set12_C_12_write_snapshot_enumerate_compaction_pointers.diff", note='VersionSet::write_snapshot (round-12 anchors, set C)')
